@@ -6,7 +6,10 @@ TMP=$(mktemp -d /var/tmp/seedrepo.XXXXXX)
 cp -r /repo/src "$TMP/src" || exit 3
 ( cd "$TMP" && patch -p1 -s < "$SEED/patch.diff" ) || { rm -rf "$TMP"; exit 3; }
 cd /verif
+# the seeded run must not replace the evidence of the unchanged tree
+[ -f "evidence/$ID.json" ] && cp "evidence/$ID.json" "$TMP/evidence.keep"
 if [ -n "$ONLY" ]; then VERIF_ONLY="$ONLY" VERIF_REPO="$TMP" ./bin/check "$ID" --tier quick; else VERIF_REPO="$TMP" ./bin/check "$ID" --tier quick; fi
 RC=$?
+[ -f "$TMP/evidence.keep" ] && cp "$TMP/evidence.keep" "evidence/$ID.json"
 rm -rf "$TMP"
 exit $RC
